@@ -712,6 +712,9 @@ class Interp:
         f = _BINOPS.get(op.__class__)
         if f is None:
             raise Unsupported(f'binary operator {op.__class__.__name__}')
+        if isinstance(op, ast.Mult) and (isinstance(a, bytes) or isinstance(b, bytes)):
+            from . import values
+            return values.zero_bytes_mul(a if isinstance(a, bytes) else b, b if isinstance(a, bytes) else a)
         try:
             return f(a, b)
         except TypeError as e:
@@ -996,12 +999,15 @@ def b_list(x=()):
 def _late():
     from . import values
     DEFAULT_GLOBALS['dict'] = values.dict_ctor
+    from . import loops
+    DEFAULT_GLOBALS['enumerate'] = loops.b_enumerate
+    DEFAULT_GLOBALS['array'] = values.b_array
 
 
 DEFAULT_GLOBALS = {
     'len': b_len, 'max': sym.smax, 'min': sym.smin, 'abs': b_abs, 'isinstance': b_isinstance, 'bool': b_bool,
     'int': b_int, 'range': b_range, 'getattr': _GetAttr(), 'setattr': _SetAttr(), 'tuple': b_tuple, 'list': b_list,
-    'enumerate': enumerate, 'zip': zip, 'str': str, 'dict': None, 'set': set, 'frozenset': frozenset,
+    'enumerate': None, 'zip': zip, 'str': str, 'dict': None, 'set': set, 'frozenset': frozenset,
     'True': True, 'False': False, 'None': None, 'Ellipsis': ...,
     'IndexError': IndexError, 'ValueError': ValueError, 'KeyError': KeyError, 'RuntimeError': RuntimeError,
     'TypeError': TypeError, 'NotImplementedError': NotImplementedError, 'AttributeError': AttributeError,
